@@ -20,6 +20,7 @@ def run(tier):
     rep.rule('R19.a', 'allocation-site inventory of the core (lltd_port_malloc call sites + port-allocated outputs)', floor=12)
     rep.rule('R19.b', 'per-request objects are freed on every path to the handler\'s return (incl. fault paths); no double free / use after free', floor=100)
     rep.rule('R19.c', 'retained state is bounded: observation list growth is guarded by a constant cap; the icon slot is filled only when empty', floor=3)
+    rep.rule('R19.e', 'the link field of an observation already in the list is never rewritten (the list is only extended at its head and released from its head)', floor=100)
     rep.rule('R19.d', 'a topology Reset leaves nothing allocated except the per-interface record', floor=1)
     prog = load_core('systemd')
     sites = []
@@ -52,6 +53,10 @@ def run(tier):
                 seen_sites.add(site)
             rep.check(not h['leaked'], 'R19.b', '%s|leak|%s' % (entry, ','.join(sorted(h['leaked']))),
                       'handling a frame (ToS %s, opcode %s) returns with %s allocated but neither freed nor part of the retained state' % (h['tos'], h['op'], h['leaked']),
+                      file='lltdResponder/lltdBlock.c', function='parseFrame')
+            rep.check(not h.get('link_stores'), 'R19.e', '%s|link-rewritten' % entry,
+                      'handling a frame (ToS %s, opcode %s) stores into the link field of an observation that is already in the list (offset/size %s): '
+                      'the nodes behind it become unreachable - never reported, never freed, not even by a Reset' % (h['tos'], h['op'], h.get('link_stores')),
                       file='lltdResponder/lltdBlock.c', function='parseFrame')
             if h['new_node_linked']:
                 linked += 1
